@@ -33,6 +33,7 @@ def handle (j : Json) : Except String Json := do
   | "nest_chain" => Driver.nestChain j
   | "nest_flat" => Driver.nestFlat j
   | "nest_aff" => Driver.nestAff j
+  | "nest_chunk" => Driver.nestChunk j
   | "cascade" => Driver.cascadeOp j
   | "legality" => Driver.legality j
   | "parse_spec" => Driver.parseSpec j
